@@ -13,7 +13,7 @@ from drivers import tau_common
 def run(tier="quick", seed=0, which="c04", pid="C04"):
     pr = PropertyRun(pid, tier, seed)
     thorough = tier == "thorough"
-    n = {"c04": 6000, "c05": 3000, "c07": 3000}[which] if thorough else {"c04": 900, "c05": 300, "c07": 400}[which]
+    n = {"c04": 20000, "c05": 10000, "c07": 10000}[which] if thorough else {"c04": 900, "c05": 300, "c07": 400}[which]
     if which == "c04":
         pr.model_check("MCGridInterp", workers=8, timeout=900)
     if which == "c07":
@@ -21,7 +21,7 @@ def run(tier="quick", seed=0, which="c04", pid="C04"):
     paths = {v: tables.export_tau(v) for v in (1, 2, 3)}
     for v in (1, 2, 3):
         pr.model_check("MCTauTables", workers=2, heap="4g", env={"TABLE_FILE": paths[v]}, timeout=900)
-    jobs = [{"which": which, "version": v, "n": n, "seed": seed + 17 * v + r} for v in (1, 2, 3) for r in range(4 if thorough else 1)]
+    jobs = [{"which": which, "version": v, "n": n, "seed": seed + 17 * v + r} for v in (1, 2, 3) for r in range(6 if thorough else 1)]
     res = par.pmap(tau_common.job, jobs, workers=12)
     for v in (1, 2, 3):
         ev = [e for ver, evs in res if ver == v for e in evs]
